@@ -247,7 +247,72 @@ fn surplus_variants(name: &str, bytes: &[u8]) -> Vec<Vec<u8>> {
 
 fn bump<C: Curve>(x: &mut C) { *x = x.plus_point(&C::one_point()) }
 
+/// A proof made for the statement WITHOUT one of its single commitments, hashed as if it were for the full statement, with the response map padded to the
+/// expected size under an index the statement does not have: a verifier that checks every row rejects it (the omitted commitment here does NOT open to the
+/// committed vector entry - the statement is false).
+fn forge_vcom_eq(row: &J, idx: u64) -> Res {
+    let legacy = idx % 2 == 0;
+    let mut rng = StdRng::seed_from_u64(idx);
+    let w: Vec<Fr> = (0..6).map(|i| scalar("rand", 7000 * idx + i)).collect();
+    let gis = vec![pt(1), pt(2)];
+    let (h, g_bar, h_bar) = (pt(3), pt(4), pt(5));
+    let comm = Commitment(gis[0].mul_by_scalar(&w[0]).plus_point(&gis[1].mul_by_scalar(&w[1])).plus_point(&h.mul_by_scalar(&w[2])));
+    let good = Commitment(g_bar.mul_by_scalar(&w[0]).plus_point(&h_bar.mul_by_scalar(&w[3])));
+    // commits to w[4], not to the second entry w[1] of the vector
+    let bad = Commitment(g_bar.mul_by_scalar(&w[4]).plus_point(&h_bar.mul_by_scalar(&w[5])));
+    let mut comms_full = BTreeMap::new();
+    comms_full.insert(0u8, good);
+    comms_full.insert(1u8, bad);
+    let mut comms_red = BTreeMap::new();
+    comms_red.insert(0u8, good);
+    let full = VecComEq { comm, comms: comms_full, gis: gis.clone(), h, g_bar, h_bar };
+    let red = VecComEq { comm, comms: comms_red, gis, h, g_bar, h_bar };
+    let mut ris = BTreeMap::new();
+    ris.insert(0u8, Value::<G>::new(w[3]));
+    let secret = (vec![w[0], w[1]], Value::<G>::new(w[2]), ris);
+    fn forge<T: TranscriptProtocol>(ro: &mut T, full: &VecComEq<G>, red: &VecComEq<G>, secret: <VecComEq<G> as SigmaProtocol>::SecretData, rng: &mut StdRng) -> Option<Vec<u8>> {
+        let (cm, st) = red.compute_commit_message(rng)?;
+        full.public(ro);
+        ro.append_message("point", &cm);
+        let challenge_bytes = ro.extract_raw_challenge();
+        let ch = full.get_challenge(&challenge_bytes);
+        let resp = red.compute_response(secret, st, &ch)?;
+        let mut b = to_bytes(&challenge_bytes);
+        b.extend_from_slice(&to_bytes(&resp));
+        Some(b)
+    }
+    let bytes = if legacy { forge(&mut RandomOracle::domain("ctx-a"), &full, &red, secret, &mut rng) } else { forge(&mut TranscriptProtocolV1::with_domain("ctx-a"), &full, &red, secret, &mut rng) };
+    let mut bytes = match bytes {
+        Some(b) => b,
+        None => return fail("vcom_eq: harness cannot run the prover steps".into(), J::Null, J::Null),
+    };
+    // challenge 32 | sis: u16 count, 32 each | t 32 | tis: u16 count, (u8 key, 32) each  -> one more entry under an index outside the statement
+    let n = u16::from_be_bytes([bytes[32], bytes[33]]) as usize;
+    let at = 34 + 32 * n + 32;
+    let m = u16::from_be_bytes([bytes[at], bytes[at + 1]]);
+    bytes[at..at + 2].copy_from_slice(&(m + 1).to_be_bytes());
+    bytes.push(200);
+    let filler = bytes[bytes.len() - 33..bytes.len() - 1].to_vec();
+    bytes.extend_from_slice(&filler);
+    let proof = match reparse::<SigmaProof<<VecComEq<G> as SigmaProtocol>::Response>>(&bytes) {
+        Some(p) => p,
+        None => return Ok(()),
+    };
+    let accepted = if legacy { verify(&mut RandomOracle::domain("ctx-a"), &full, &proof) } else { verify(&mut TranscriptProtocolV1::with_domain("ctx-a"), &full, &proof) };
+    if accepted {
+        return fail(
+            format!("vcom_eq: a proof that omits the commitment with index 1 (which does not open to the vector entry) and pads the response map under index 200 verifies for the full statement ({} transcript), row {}", if legacy { "legacy" } else { "V1" }, row),
+            json!(false),
+            json!(true),
+        );
+    }
+    Ok(())
+}
+
 fn run_sigma(row: &J, idx: u64) -> Res {
+    if row["perturb"] == "forge_skip_row" {
+        return if row["protocol"] == "vcom_eq" { forge_vcom_eq(row, idx) } else { Ok(()) };
+    }
     let key = CommitmentKey::<G>::new(pt(1), pt(2));
     match row["protocol"].as_str().unwrap() {
         "dlog" => run_case::<Dlog<G>>(
